@@ -185,11 +185,11 @@ func runTransformReplay(args []string) int {
 		rep.inconclusive(err.Error())
 	}
 	rep.write(out)
-	if len(rep.Inconcl) > 0 {
-		return 2
-	}
 	if len(rep.ViolClasses) > 0 {
 		return 1
+	}
+	if len(rep.Inconcl) > 0 {
+		return 2
 	}
 	return 0
 }
